@@ -9,6 +9,7 @@ class Collector:
         self.evaluations = 0
         self.nontrivial = set()
         self.violations = []
+        self._seen = set()
         self.samples = []
         self.traces = 0
         self.extra = {}
@@ -19,10 +20,12 @@ class Collector:
             self.nontrivial.add(nontrivial_key)
 
     def violation(self, fingerprint, replay):
-        if len(self.violations) < 40:
+        # the replay record is kept for the first occurrences and for the FIRST occurrence of every fingerprint
+        if len(self.violations) < 40 or fingerprint not in self._seen:
             self.violations.append((fingerprint, replay))
         else:
             self.violations.append((fingerprint, None))
+        self._seen.add(fingerprint)
 
     def sample(self, s, cap=3):
         if len(self.samples) < cap:
